@@ -35,7 +35,7 @@ from . import common
 
 MODULES = ["CoapVerif.Props.C14"]
 CORPUS = os.path.join(common.VERIF, "corpus", "C14")
-WRITES = ("store", "los", "replace", "delete", "lad", "ladall", "swf", "loswf", "rwf", "dwf", "ladwf", "clos", "sweep")
+WRITES = ("store", "los", "replace", "delete", "lad", "ladall", "swf", "loswf", "loswfn", "rwf", "dwf", "ladwf", "clos", "sweep")
 WHOLE = ("ladall", "copy", "len", "range", "range2", "sweep")
 
 
@@ -140,7 +140,9 @@ def map_templates(k, fresh, init=5):
             lambda: "swf:%d:%d" % (k, v()), lambda: "lwf:%d:100" % k, lambda: "loswf:%d:100:%d" % (k, v()),
             lambda: "rwf:%d:inc:1" % k, lambda: "rwf:%d:del" % k, lambda: "rwf:%d:cas:%d:%d" % (k, init, v()),
             lambda: "dwf:%d" % k, lambda: "ladwf:%d:100" % k,
-            lambda: "ladall", lambda: "copy", lambda: "len", lambda: "range", lambda: "range:1", lambda: "range2"]
+            lambda: "ladall", lambda: "copy", lambda: "len", lambda: "range", lambda: "range:1", lambda: "range2",
+            # the lazy store-if-absent: LoadOrStoreWithFunc WITHOUT an onLoad callback (nil) - seeded C14-T
+            lambda: "loswfn:%d:%d" % (k, v())]
 
 
 def cache_templates(k, fresh):
@@ -167,8 +169,8 @@ def gen_programs(ctx):
             P.append(fmt_prog("map", pre, [[T[a]()], [T[b]()]], ["load:1", "len"]))
     # 2. three threads, one operation each, from the store-if-absent / read-modify-write family
     fr = Fresh()
-    core = [0, 2, 4, 5, 8, 9, 11]
     T = map_templates(1, fr)
+    core = [0, 2, 4, 5, 8, 9, 11, len(T) - 1]
     for pre in ([], ["store:1:5"]):
         for tri in itertools.combinations_with_replacement(core, 3):
             P.append(fmt_prog("map", pre, [[T[i]()] for i in tri], ["load:1", "len"]))
@@ -320,7 +322,7 @@ def clause_of(prog):
         return "store-if-absent"
     if "sweep" in ops:
         return "sweep-only-expired"
-    if any(o in ops for o in ("los", "clos", "loswf")):
+    if any(o in ops for o in ("los", "clos", "loswf", "loswfn")):
         return "store-if-absent"
     if any(o in ops for o in ("lwf", "rwf", "dwf", "ladwf", "swf")):
         return "callbacks-see-current-value"
